@@ -285,6 +285,16 @@ class LedgerStep(Step):
         return {'log': [tok]}
 
 
+class Declared(Process):
+    """Declares parameters['schema'] and does nothing (module level: can be sent to a worker)."""
+
+    def ports_schema(self):
+        return self.parameters['schema']
+
+    def next_update(self, timestep, states):
+        return {}
+
+
 class LedgerDuck(Process):
     """A step by configuration: not a Step subclass, it answers is_step() itself; listed among the processes."""
 
